@@ -60,6 +60,11 @@ type Link struct {
 	// decoder refuses it, the case does not exist (ErrUndecodable); if it lets it through, the delegation grants
 	// nothing: a text that is not a command covers no command and is covered by none.
 	RawCmd *string `json:"raw_cmd,omitempty"`
+	// RawExp / RawNbf: the same for the time bounds - the delegation travels with THIS integer (Unix seconds) in its
+	// exp / nbf field, whatever it is: the constructors only take future instants, the wire takes any integer the
+	// decoder lets through (the Unix epoch, year 1, negative, far future).
+	RawExp *int64 `json:"raw_exp,omitempty"`
+	RawNbf *int64 `json:"raw_nbf,omitempty"`
 }
 
 // ErrUndecodable: a hand-sealed token of the case is refused by the decoder (that is the decoder's job).
@@ -382,7 +387,7 @@ func BuildLinkWith(l Link, prebuilt policy.Policy) (*delegation.Token, cid.Cid, 
 	if err != nil {
 		return nil, cid.Undef, nil, fmt.Errorf("ToSealed: %w", err)
 	}
-	if l.RawCmd != nil {
+	if l.RawCmd != nil || l.RawExp != nil || l.RawNbf != nil {
 		e, perr := env.Parse(data)
 		if perr != nil {
 			return nil, cid.Undef, nil, fmt.Errorf("harness cannot parse its own token: %w", perr)
@@ -390,10 +395,19 @@ func BuildLinkWith(l Link, prebuilt policy.Policy) (*delegation.Token, cid.Cid, 
 		pv := val.FromNode(e.Payload)
 		np := val.V{K: "map"}
 		for _, kv := range pv.M {
-			if kv.K == "cmd" {
+			if kv.K == "cmd" && l.RawCmd != nil {
 				kv.V = val.Str(*l.RawCmd)
 			}
+			if kv.K == "exp" && l.RawExp != nil {
+				kv.V = val.Int(*l.RawExp)
+			}
+			if kv.K == "nbf" && l.RawNbf != nil {
+				continue
+			}
 			np.M = append(np.M, kv)
+		}
+		if l.RawNbf != nil {
+			np.M = append(np.M, val.KV{K: "nbf", V: val.Int(*l.RawNbf)})
 		}
 		raw, serr := env.SignPayload(Prin(l.Iss).Priv, e.Tag, np.Node())
 		if serr != nil {
@@ -814,14 +828,23 @@ func Eval(c Case) Rules {
 	}
 	r.R[9] = c.Inv.Exp == nil || *c.Inv.Exp > 0
 	for _, l := range c.Links {
-		if l.Exp != nil && l.ExpAbs == nil && *l.Exp <= 0 { // an absolute (far-future) expiration takes precedence
+		if l.Exp != nil && l.ExpAbs == nil && *l.Exp <= 0 && l.RawExp == nil { // an absolute (far-future) expiration takes precedence
 			r.R[9] = false
 		}
-		if l.Nbf != nil && *l.Nbf > 0 {
+		if l.Nbf != nil && *l.Nbf > 0 && l.RawNbf == nil {
 			r.R[9] = false
 		}
 		// absolute bounds are only ever generated far (>= 100 years) in the future
-		if l.NbfAbs != nil {
+		if l.NbfAbs != nil && l.RawNbf == nil {
+			r.R[9] = false
+		}
+		// raw wire values (they replace whatever the descriptor said): judged against the clock with a margin of
+		// two minutes, so only values far from now are used
+		now := time.Now().Unix()
+		if l.RawExp != nil && *l.RawExp <= now+120 {
+			r.R[9] = false
+		}
+		if l.RawNbf != nil && *l.RawNbf >= now-120 {
 			r.R[9] = false
 		}
 	}
